@@ -566,6 +566,7 @@ class Interp:
         self._loops = {}
         self.cmp_oracle = None
         self.widen_at = 2
+        self._const_cache = {}
         self.intercept_fn_calls = False  # opt-in: offer calls through the Fn traits to the intercept first
         self.backedge_sink = None  # opt-in: (frame, header, path) of every arrival dropped after the generic iteration
         self.concrete_ranges = False  # opt-in: exact unrolling of `for i in a..b` with constant bounds
@@ -783,6 +784,20 @@ class Interp:
             return ("int", c["v"], c.get("bits", 64))
         if isinstance(ty, list) and ty[0] == "tuple" and not ty[1]:
             return UNIT
+        # a named constant / static of the crate: evaluate its initialiser body (straight-line aggregates)
+        nm = c.get("name")
+        if nm and nm in self.F.bodies and self.F.bodies[nm]["kind"] in ("Const", "Static") and frame.depth < self.max_depth:
+            cached = self._const_cache.get(nm)
+            if cached is None:
+                cb = self.F.bodies[nm]
+                cf = Frame(cb, frame.depth + 1, frame)
+                cf.fid = ("K", nm)
+                sub = Path()
+                outs = [o for o in self._run_from(cf, 0, sub, frame.depth + 1) if o.kind == "return"]
+                cached = outs[0].value if len(outs) == 1 and ground(outs[0].value) else ("k", c.get("d", ""), str(ty))
+                self._const_cache[nm] = cached
+            if cached[0] != "k":
+                return cached
         d = c.get("d", "")
         if d.startswith('"') or d.startswith('b"'):
             return ("str", d)
@@ -894,6 +909,8 @@ class Interp:
             return self.discr_of(path, frame, v, rv[1])
         if k == "repeat":
             v = self.eval_operand(path, frame, rv[1])
+            if isinstance(rv[2], int) and rv[2] <= 64:
+                return ("agg", "array", None, (v,) * rv[2])
             return ("repeat", v, rv[2])
         return TOP("rvalue:" + k)
 
@@ -1385,6 +1402,116 @@ class Interp:
             if a is not None and b is not None and a[0] == b[0] and a[0] != "int" and meth in ("lt", "le", "gt", "ge", "eq", "ne"):
                 r = {"lt": a[1] < b[1], "le": a[1] <= b[1], "gt": a[1] > b[1], "ge": a[1] >= b[1], "eq": a[1] == b[1], "ne": a[1] != b[1]}[meth]
                 return self._multi(path, frame, t, [(INT(int(r), 8), path)], depth)
+        shortn = name.rsplit("::", 1)[1].split("::<")[0] if "::" in name else name
+        # --- operator traits on primitive integers taken by reference (`a | &b`, `&a & &b`, ...)
+        mo = _OP_TRAIT.match(name)
+        if mo and len(args) == 2:
+            tb = _prim_bits(mo.group(1))
+            if tb:
+                opn = {"add": "Add", "sub": "Sub", "mul": "Mul", "bitand": "BitAnd", "bitor": "BitOr", "bitxor": "BitXor",
+                       "shl": "Shl", "shr": "Shr", "div": None, "rem": None}[mo.group(3)]
+                if opn:
+                    a_, b_ = self._deref_all(path, args[0]), self._deref_all(path, args[1])
+                    if opn in ("Add", "Sub", "Mul"):
+                        # the operator form is overflow-checked in this profile
+                        ov = self.binop(path, opn + "Ovf", a_, b_, 8, tb[1])
+                        if self.decide(path, ov) is None:
+                            path.events.append(("assert", "Overflow", opn, {"a": a_, "b": b_}, F.site_str(frame.body, t["sp"]),
+                                                frame.body["path"], ov, len(path.conds), ""))
+                    return self._multi(path, frame, t, [(self.binop(path, opn, a_, b_, tb[0], tb[1]), path)], depth)
+        # --- iterator chains over arrays whose elements are known: ('citer', elements)
+        if shortn in ("iter", "into_iter") and len(args) == 1:
+            v = self._deref_all(path, args[0])
+            if v[0] == "agg" and v[1] == "array" and len(v[3]) <= 64:
+                byref = shortn == "iter" or args[0][0] == "ref"
+                elems = []
+                for i, e in enumerate(v[3]):
+                    if byref:
+                        tmp = ("L", ("citer-elem", frame.fid, t["sp"], i, len(path.events)), 0)
+                        path.store[tmp] = e
+                        elems.append(("ref", (tmp, ()), False))
+                    else:
+                        elems.append(e)
+                return self._multi(path, frame, t, [(("citer", tuple(elems)), path)], depth)
+            if v[0] == "citer":
+                return self._multi(path, frame, t, [(v, path)], depth)
+        if args and args[0][0] == "citer" and "Iterator" in (t["f"].get("def") or name):
+            it = args[0]
+            if shortn in ("copied", "cloned"):
+                return self._multi(path, frame, t, [(("citer", tuple(self._deref_all(path, e, 1) if e[0] == "ref" else e for e in it[1])), path)], depth)
+            if shortn in ("rev",):
+                return self._multi(path, frame, t, [(("citer", it[1][::-1]), path)], depth)
+            if shortn == "count" and len(args) == 1:
+                return self._multi(path, frame, t, [(INT(len(it[1]), 64), path)], depth)
+            if shortn in ("filter", "map", "fold", "any", "all", "find", "position", "for_each", "sum", "max", "min") and \
+                    (len(args) >= 2 or shortn in ("sum", "max", "min")):
+                g = self._citer_adaptor(path, frame, t, shortn, it, args[1:], depth)
+                if g is not None:
+                    return g
+        # --- small arrays / byte tuples held as aggregates
+        if shortn in ("index", "index_mut") and "ops::Index" in name and len(args) == 2:
+            base = self._deref_all(path, args[0])
+            if base[0] == "agg" and base[1] == "array":
+                ix = self._deref_all(path, args[1])
+                n_ = len(base[3])
+                lo = hi = None
+                if is_int(ix):
+                    if ix[1] < n_ and shortn == "index":
+                        tmp = ("L", ("arr-elem", frame.fid, t["sp"], len(path.events)), 0)
+                        path.store[tmp] = base[3][ix[1]]
+                        return self._multi(path, frame, t, [(("ref", (tmp, ()), False), path)], depth)
+                elif ix[0] == "agg" and ix[1].startswith("adt:std::ops::Range"):
+                    kind = ix[1].rsplit("::", 1)[1]
+                    f_ = ix[3]
+                    if kind == "RangeTo" and is_int(f_[0]):
+                        lo, hi = 0, f_[0][1]
+                    elif kind == "RangeFrom" and is_int(f_[0]):
+                        lo, hi = f_[0][1], n_
+                    elif kind == "Range" and is_int(f_[0]) and is_int(f_[1]):
+                        lo, hi = f_[0][1], f_[1][1]
+                    elif kind == "RangeFull":
+                        lo, hi = 0, n_
+                    if lo is not None and lo <= hi <= n_:
+                        if shortn == "index_mut" and args[0][0] == "ref":
+                            loc = args[0][1]
+                            inner = self.read_loc(path, loc)
+                            while inner[0] == "ref":
+                                loc = inner[1]
+                                inner = self.read_loc(path, loc)
+                            return self._multi(path, frame, t, [(("arrview", loc, lo, hi), path)], depth)
+                        return self._multi(path, frame, t, [(("agg", "array", None, base[3][lo:hi]), path)], depth)
+        if shortn in ("copy_from_slice", "clone_from_slice") and len(args) == 2:
+            dst = args[0]
+            for _ in range(3):
+                if dst[0] == "ref" and dst[1][0][0] == "D" and not dst[1][1]:
+                    dst = dst[1][0][1]
+            src = args[1]
+            for _ in range(3):
+                if src[0] == "ref" and src[1][0][0] == "D" and not src[1][1]:
+                    src = src[1][0][1]
+            src = self._deref_all(path, src)
+            if dst[0] == "arrview" and src[0] == "agg" and src[1] == "array" and len(src[3]) == dst[3] - dst[2]:
+                cur = self.read_loc(path, dst[1])
+                if cur[0] == "agg" and cur[1] == "array":
+                    new = cur[3][:dst[2]] + tuple(src[3]) + cur[3][dst[3]:]
+                    self.write_loc(path, dst[1], ("agg", "array", None, new))
+                    return self._multi(path, frame, t, [(UNIT, path)], depth)
+        if shortn in ("try_into", "try_from") and len(args) == 1:
+            v = self._deref_all(path, args[0])
+            g_ = " ".join(t["f"].get("gargs", []))
+            m_ = re.search(r"\[u8; (\d+)\]", g_)
+            if v[0] == "agg" and v[1] == "array" and m_:
+                if len(v[3]) == int(m_.group(1)):
+                    return self._multi(path, frame, t, [(OK(v), path)], depth)
+                return self._multi(path, frame, t, [(ERR(("ret", "TryFromSliceError", (), 0)), path)], depth)
+        if shortn in ("deref", "as_slice", "as_ref", "to_vec", "borrow", "into_boxed_slice", "to_owned") and len(args) == 1:
+            v = self._deref_all(path, args[0])
+            if v[0] == "agg" and v[1] == "array":
+                return self._multi(path, frame, t, [(v, path)], depth)
+        if shortn == "len" and len(args) == 1:
+            v = self._deref_all(path, args[0])
+            if v[0] == "agg" and v[1] == "array":
+                return self._multi(path, frame, t, [(INT(len(v[3]), 64), path)], depth)
         # --- conversions
         if name.endswith("::into") or name.endswith("::from") or name.endswith("::try_into") or name.endswith("::try_from"):
             g = t["f"].get("gargs", [])
@@ -1409,6 +1536,39 @@ class Interp:
                 db = _prim_bits(dst)
                 if sb and db and fname in ("into", "from"):
                     return self._multi(path, frame, t, [(self.cast(args[0], sb[0], sb[1], db[0]), path)], depth)
+                if sb and db and fname in ("try_into", "try_from"):
+                    # checked integer conversion: Ok(value) iff the value lies in the destination's range
+                    x = args[0]
+                    dmax = (1 << (db[0] - (1 if db[1] else 0))) - 1
+                    dmin = -(1 << (db[0] - 1)) if db[1] else 0
+                    smax = (1 << (sb[0] - (1 if sb[1] else 0))) - 1
+                    smin = -(1 << (sb[0] - 1)) if sb[1] else 0
+                    conds = []
+                    if dmax < smax:
+                        conds.append(self.binop(path, "Le", x, INT(dmax, sb[0]), 8, sb[1]))
+                    if dmin > smin:
+                        conds.append(self.binop(path, "Ge", x, INT(dmin, sb[0]), 8, sb[1]))
+                    okv = OK(self.cast(x, sb[0], sb[1], db[0]))
+                    errv = ERR(("ret", "TryFromIntError", (), 0))
+                    outs = [(None, path)]
+                    res = []
+                    for c in conds:
+                        nxt = []
+                        for _, p in outs:
+                            d = self.decide(p, c)
+                            if d == 1:
+                                nxt.append((None, p))
+                            elif d == 0:
+                                res.append((errv, p))
+                            else:
+                                p2 = p.copy()
+                                self.assume_cond(p, c, 1)
+                                self.assume_cond(p2, c, 0)
+                                nxt.append((None, p))
+                                res.append((errv, p2))
+                        outs = nxt
+                    res = [(okv, p) for _, p in outs] + res
+                    return self._multi(path, frame, t, res, depth)
                 if fname in ("into", "from"):
                     return self._multi(path, frame, t, [(("conv", dst, args[0]), path)], depth)
         # --- Clone / Deref / borrow
@@ -1478,6 +1638,23 @@ class Interp:
                 if meth == "rotate_right":
                     n_ = (bits - n_) % bits
                 return self._multi(path, frame, t, [(INT(((v << n_) | (v >> (bits - n_))) & mask(bits) if n_ else v, bits), path)], depth)
+            if meth in ("to_le_bytes", "to_be_bytes", "to_ne_bytes") and b is None:
+                bs = tuple(self.cast(self.binop(path, "Shr", a, INT(8 * i, 32), bits) if i else a, bits, False, 8)
+                           for i in range(bits // 8))
+                if meth == "to_be_bytes":
+                    bs = bs[::-1]
+                return self._multi(path, frame, t, [(("agg", "array", None, bs), path)], depth)
+            if meth in ("from_le_bytes", "from_be_bytes", "from_ne_bytes") and b is None:
+                arr_ = self._deref_all(path, a)
+                if arr_[0] == "agg" and arr_[1] == "array" and len(arr_[3]) == bits // 8:
+                    bs = arr_[3] if meth != "from_be_bytes" else arr_[3][::-1]
+                    v = INT(0, bits)
+                    for i, x in enumerate(bs):
+                        e = self.cast(x, 8, False, bits)
+                        if i:
+                            e = self.binop(path, "Shl", e, INT(8 * i, 32), bits)
+                        v = self.binop(path, "BitOr", v, e, bits)
+                    return self._multi(path, frame, t, [(v, path)], depth)
             if meth in ("saturating_add", "saturating_sub"):
                 op = "Add" if meth.endswith("add") else "Sub"
                 return self._multi(path, frame, t, [(("ret", meth, (a, b), 0), path)], depth)
@@ -1687,6 +1864,113 @@ class Interp:
         path.events.append(("unknown_closure_call", env, F.site_str(frame.body, t["sp"])))
         return None
 
+    def _call_closure_value(self, path, frame, t, clos, cargs, depth, tag):
+        """outcomes of calling a closure value with explicit arguments, or None when it is not a local closure"""
+        clos = self._deref_all(path, clos)
+        if clos[0] != "agg" or not clos[1].startswith("closure:"):
+            return None
+        cb = self.F.bodies.get(clos[1][8:])
+        if cb is None or depth >= self.max_depth:
+            return None
+        l1 = cb["locals"][1]
+        if isinstance(l1, list) and l1[0] == "ref":
+            tmp = ("L", ("citer-env", frame.fid, t["sp"], tag, len(path.events)), 0)
+            path.store[tmp] = clos
+            env = ("ref", (tmp, ()), True)
+        else:
+            env = clos
+        return list(self.call_body(cb, [env] + list(cargs), path, frame, depth + 1))
+
+    def _citer_adaptor(self, path, frame, t, meth, it, rest, depth):
+        """filter / map / fold / any / all / find / position / sum over a concrete element list: the closure is run per
+        element; a predicate that cannot be decided forks. Returns a generator of outcomes or None (not applicable)."""
+        elems = it[1]
+
+        def by_ref(p, e, i):
+            tmp = ("L", ("citer-arg", frame.fid, t["sp"], i, len(p.events)), 0)
+            p.store[tmp] = e
+            return ("ref", (tmp, ()), False)
+
+        def gen():
+            # states: (path, accumulator)
+            if meth == "fold":
+                states = [(path, rest[0])]
+                clos = rest[1]
+            elif meth == "sum":
+                w_ = width_of(elems[0]) if elems else 64
+                acc0 = INT(0, w_)
+                states = [(path, acc0)]
+                clos = None
+            else:
+                states = [(path, ())]
+                clos = rest[0]
+            for i, e in enumerate(elems):
+                nxt = []
+                for p, acc in states:
+                    if meth == "sum":
+                        ev = self._deref_all(p, e, 1) if e[0] == "ref" else e
+                        nxt.append((p, self.binop(p, "Add", acc, ev, width_of(acc))))
+                        continue
+                    if meth == "fold":
+                        cargs = [acc, e]
+                    elif meth in ("filter", "find"):
+                        cargs = [by_ref(p, e, i)]
+                    else:
+                        cargs = [e]
+                    res = self._call_closure_value(p, frame, t, clos, cargs, depth, i)
+                    if res is None:
+                        yield from self._opaque(path, frame, t, "citer::" + meth, [it] + list(rest), depth, havoc=True)
+                        return
+                    for o in res:
+                        if o.kind != "return":
+                            yield o
+                            continue
+                        if meth == "fold":
+                            nxt.append((o.path, o.value))
+                        elif meth == "map":
+                            nxt.append((o.path, acc + (o.value,)))
+                        elif meth == "for_each":
+                            nxt.append((o.path, acc))
+                        else:
+                            d = self.decide(o.path, o.value)
+                            alts = [(d, o.path)] if d is not None else None
+                            if alts is None:
+                                p2 = o.path.copy()
+                                self.assume_cond(o.path, o.value, 1)
+                                self.assume_cond(p2, o.value, 0)
+                                alts = [(1, o.path), (0, p2)]
+                            for dv, pp in alts:
+                                if meth == "filter":
+                                    nxt.append((pp, acc + ((e,) if dv else ())))
+                                elif meth in ("any", "find", "position"):
+                                    if dv:
+                                        fin = INT(1, 8) if meth == "any" else SOME(e if meth == "find" else INT(i, 64))
+                                        yield from self.cont(frame, t, pp, fin, depth)
+                                    else:
+                                        nxt.append((pp, acc))
+                                elif meth == "all":
+                                    if not dv:
+                                        yield from self.cont(frame, t, pp, INT(0, 8), depth)
+                                    else:
+                                        nxt.append((pp, acc))
+                states = nxt
+            for p, acc in states:
+                if meth in ("fold", "sum"):
+                    yield from self.cont(frame, t, p, acc, depth)
+                elif meth in ("filter", "map"):
+                    yield from self.cont(frame, t, p, ("citer", tuple(acc)), depth)
+                elif meth == "for_each":
+                    yield from self.cont(frame, t, p, UNIT, depth)
+                elif meth == "any":
+                    yield from self.cont(frame, t, p, INT(0, 8), depth)
+                elif meth == "all":
+                    yield from self.cont(frame, t, p, INT(1, 8), depth)
+                else:
+                    yield from self.cont(frame, t, p, NONE, depth)
+        if meth in ("max", "min"):
+            return None
+        return gen()
+
     def scalar_rank(self, v):
         """(domain, rank) of a ground integer or a constant of a field-less enum (rank = discriminant), else None"""
         while v[0] in ("w",):
@@ -1718,6 +2002,7 @@ class Interp:
 
 import re
 
+_OP_TRAIT = re.compile(r"^<&?(?:'\w+ )?([iu](?:8|16|32|64|128|size)) as std::ops::(Add|Sub|Mul|BitAnd|BitOr|BitXor|Shl|Shr|Div|Rem)<[^>]*>>::(add|sub|mul|bitand|bitor|bitxor|shl|shr|div|rem)$")
 _INT_METHOD = re.compile(r"^core::num::<impl ([iu](?:8|16|32|64|128|size))>::(\w+)$")
 
 
